@@ -51,7 +51,7 @@ def _valid_sources(rng):
 
 
 def _damage(rng, text, k):
-    kinds = ['intmin', 'efunlocal', 'efunlocal', 'redeclare', 'redeclare', 'del', 'ins', 'dup', 'trunc', 'unstr', 'uncomment', 'untext', 'unlit', 'if', 'endif', 'else', 'defself', 'defmutual', 'macroargs', 'incself', 'incmissing',
+    kinds = ['efunglobal', 'efunglobal', 'intmin', 'efunlocal', 'efunlocal', 'redeclare', 'redeclare', 'del', 'ins', 'dup', 'trunc', 'unstr', 'uncomment', 'untext', 'unlit', 'if', 'endif', 'else', 'defself', 'defmutual', 'macroargs', 'incself', 'incmissing',
              'incdeep', 'litdeep', 'locals', 'args', 'strings', 'funcs', 'longline', 'longident', 'longstr', 'dupfun', 'conflict', 'random', 'nul', 'high', 'inhmissing', 'inhlate', 'superunknown', 'defprobe', 'pragma', 'unlit3', 'unlit3', 'iffatal']
     kind = rng.choice(kinds)
     n = len(text)
@@ -114,6 +114,14 @@ def _damage(rng, text, k):
         # constant expressions the compiler and the preprocessor fold themselves
         t = rng.choice(('int zim = (-9223372036854775807 - 1) %% -1;\n', 'int zim = (-9223372036854775807 - 1) / -1;\n', '#if (-2147483647 - 1) / -1\nint zim;\n#endif\n',
                         '#if (-2147483647 - 1) %% -1 == 0\nint zim;\n#endif\n', 'int zim = 1 / 0;\n', 'int zim = 1 %% 0;\n', '#if 1 / 0\n#endif\n', 'int zim = 1 << 64;\nint zin = 1 << -1;\n')).replace('%%', '%') + text
+    elif kind == 'efunglobal':
+        # one efun name used for two kinds of global-scope definition in the same (valid or failing) file: the compiler must
+        # forget both afterwards
+        n1, n2 = rng.sample(EFUN_NAMES, 2)
+        t = text + rng.choice(('\nmixed %s;\nmixed %s(mixed x) { return x; }\n' % (n1, n1),
+                               '\nclass %s { int a; }\nmixed %s;\nmixed %s(mixed x) { return x; }\n' % (n1, n1, n1),
+                               '\nmixed %s(mixed x) { return x; }\nmixed %s;\nclass %s { int b; }\nmixed %s() { return 1; }\n' % (n1, n1, n2, n2),
+                               '\nmixed %s;\nmixed %s() { return %s } syntax error\n' % (n1, n1, n1)))
     elif kind == 'efunlocal':
         # locals and parameters named like efuns the probe uses, hidden by an anonymous function that the parser leaves early
         names = rng.sample(EFUN_NAMES, 3)
